@@ -164,7 +164,17 @@ pub fn error_message(source: &str, description: &str) {
     eprint!("{}: {}", source, description);
 }
 
+/// Verification hook (only with `--cfg fselect_verif`): payload of the unwind that replaces the
+/// process exit of `error_exit` when FSELECT_VERIF_EXIT_UNWINDS is set, so that an in-process
+/// fuzz target survives a clean rejection and can tell it from a panic.
+#[cfg(fselect_verif)]
+pub struct VerifExit(pub i32);
+
 pub fn error_exit(source: &str, description: &str) -> ! {
+    #[cfg(fselect_verif)]
+    if std::env::var_os("FSELECT_VERIF_EXIT_UNWINDS").is_some() {
+        std::panic::resume_unwind(Box::new(VerifExit(2)));
+    }
     error_message(source, description);
     std::process::exit(2);
 }
